@@ -172,6 +172,17 @@ def run(rep):
                                       coq_cases, shard_size=250, sample_ids=[0, 7, 100])
     if mm:
         broken.append(f"correspondence vh qc (implied) vs Model.MsgsRun.run_op: {len(mm)} disagreeing certificates")
+    # history level: the protocol-level theorem (Properties/C02.v) is about the replica rules, which are tied to the
+    # code by the cluster simulation (N real replicas vs Model/Sim.v on adversarial and directed schedules); its
+    # "one certified payload per block number" monitor is the statement of C02 itself on the implementation's history
+    import sim_gen as SG
+    S = SG.run_sim_cases(rep, "C02", {"prefix_ops": 100, "rounds": 8, "shard": 2}, 8 if tier == "quick" else 200, rng.fork(), broken)
+    sim_fail = [m for m in S["mon_fail"] if m["monitor"] in ("C01", "C02")]
+    for m in sim_fail:
+        pred_fail.insert(0, {"case": m.get("case"), "meta": m.get("meta"),
+                             "failed": "cluster simulation, %s monitor: %s" % (m["monitor"], m["failed"])})
+    sim_cov = {"schedules": len(S["cases"]), "mismatches": len(S["mm"]), "monitor_failures": len(sim_fail),
+               "what": "N real replicas vs Model/Sim.v: adversarial schedules plus the directed 'commit then timeout' and 'split vote, then commit then timeout' families; monitor: at most one payload per block number ever has a quorum of commit votes / a certificate"}
     if pred_fail:
         rep.violation("C02 violated on the implementation: " + pred_fail[0]["failed"],
                       {"failing_input": pred_fail[0], "broken": broken})
@@ -191,7 +202,7 @@ def run(rep):
         "answer_distribution": answers, "predicate_certificates": npred,
         "samples": [{"assignment": [None if a is None else a for a in cases[i]["_assign"]], "committee": cases[i]["committee"], "impl": outs[i]["obs"], "model_obs": samp.get(i)} for i in (0, 7, 100) if i < len(cases)],
         "correspondence_mismatches": len(mm), "predicate_failures": len(pred_fail),
-        "exhaustive": False,
+        "exhaustive": False, "cluster_simulation": sim_cov,
         "partial": "history-level certificate uniqueness is proved on the abstract vote-history model (Properties/C01Abs.v) and, when Properties/C02.v is present, on the concrete protocol model through the refinement; see evidence 'theorems'",
     })
     rep.assumptions += ["H-SIG, H-ADV, H-HASH"]
@@ -203,6 +214,10 @@ def replay(path):
     if not fi:
         print("no concrete input:", d.get("broken"))
         return 1
+    case = fi.get("case") or {}
+    if "nodes" in case or "script" in case or ("ops" in case and "op" not in case):
+        import c06
+        return c06.replay(path)
     common.cargo_build(["qc"], "dev")
     print(json.dumps(common.run_impl("qc", [fi["case"]], "dev")[0], indent=1))
     return 0
